@@ -862,6 +862,14 @@ pub fn c13_check_o(f: &[u8], c: &[u8], rs: &[Io], ws: &[Io], rfail: Option<usize
             format!("recreateio {} {} {} {}", hex(c), sched_str(rs), sched_str(ws), e),
             format!("{} {} {}", word, run.sink.len(), fnv64(&run.sink)),
         ));
+        // the same schedule through the model of the WHOLE library (concrete stream functions,
+        // nothing recorded from the code)
+        if c.len() <= 2500 {
+            out.requests.push((
+                format!("libraryio {} {} {}", hex(c), sched_str(rs), sched_str(ws)),
+                format!("{} {} {}", word, run.sink.len(), fnv64(&run.sink)),
+            ));
+        }
     }
     let is_prefix = run.sink.len() <= f.len() && run.sink[..] == f[..run.sink.len()];
     match &run.result {
